@@ -274,7 +274,12 @@ pub fn gen_value(s: &Value, comps: &Map<String, Value>, r: &mut Rng, site: Site,
     if let Some(e) = m.get("enum").and_then(|e| e.as_array()) {
         let non_null: Vec<&Value> = e.iter().filter(|x| !x.is_null()).collect();
         if !non_null.is_empty() {
-            return (*r.pick(&non_null)).clone();
+            // the first and the last value as often as all the others together
+            return match r.below(4) {
+                0 => non_null[0].clone(),
+                1 => non_null[non_null.len() - 1].clone(),
+                _ => (*r.pick(&non_null)).clone(),
+            };
         }
     }
     if let Some(l) = m.get("allOf").and_then(|l| l.as_array()) {
@@ -371,8 +376,19 @@ pub fn gen_value(s: &Value, comps: &Map<String, Value>, r: &mut Rng, site: Site,
         Some("array") => {
             let minn = m.get("minItems").and_then(|x| x.as_u64()).unwrap_or(0) as usize;
             let maxn = m.get("maxItems").and_then(|x| x.as_u64()).map(|x| x as usize).unwrap_or(minn + 3);
-            let n = if depth > 4 { minn } else { r.range(minn, maxn.max(minn)) };
+            // deep nesting keeps one element per level (so a Vec<Vec<..>> of depth 9 is
+            // filled to the bottom) and stops growing below that
+            let n = if depth > 12 {
+                minn
+            } else if depth > 4 {
+                minn.max(1).min(maxn.max(minn))
+            } else {
+                r.range(minn, maxn.max(minn))
+            };
             let items = m.get("items").cloned().unwrap_or(json!({}));
+            // an array of arrays is never empty: nesting is filled to the bottom
+            let nested = resolve(&items, comps).get("type").and_then(|t| t.as_str()) == Some("array");
+            let n = if nested { n.max(1).min(maxn.max(1)) } else { n };
             let mut v: Vec<Value> = (0..n).map(|_| gen_value(&items, comps, r, site, depth + 1)).collect();
             if m.get("uniqueItems").and_then(|b| b.as_bool()).unwrap_or(false) {
                 let mut u: Vec<Value> = vec![];
